@@ -106,18 +106,32 @@ pub fn family_text(fam: usize, fam2: Option<usize>, depth: usize) -> (String, us
     }
 }
 
+fn thread_cpu_secs() -> f64 {
+    let mut ts = libc::timespec { tv_sec: 0, tv_nsec: 0 };
+    unsafe { libc::clock_gettime(libc::CLOCK_THREAD_CPUTIME_ID, &mut ts) };
+    ts.tv_sec as f64 + ts.tv_nsec as f64 * 1e-9
+}
+
 fn parse_on_small_stack(text: String, c: usize) -> Result<(f64, usize), String> {
     let h = std::thread::Builder::new()
         .stack_size(STACK)
         .spawn(move || {
             catch(|| {
-                let t0 = Instant::now();
-                let tree = parse(&text, cfg(c));
-                let n = tree.get_errors().len();
-                // the consumers walk and drop the tree on the same stack
-                let _count = tree.get_red_root().descendants_with_tokens().count();
-                drop(tree);
-                (t0.elapsed().as_secs_f64(), n)
+                // CPU time of this thread (immune to preemption by other processes), best of
+                // three for inputs large enough for the time rule to apply
+                let reps = if text.len() >= 64 * 1024 { 3 } else { 1 };
+                let mut best = f64::MAX;
+                let mut n = 0;
+                for _ in 0..reps {
+                    let t0 = thread_cpu_secs();
+                    let tree = parse(&text, cfg(c));
+                    n = tree.get_errors().len();
+                    // the consumers walk and drop the tree on the same stack
+                    let _count = tree.get_red_root().descendants_with_tokens().count();
+                    drop(tree);
+                    best = best.min(thread_cpu_secs() - t0);
+                }
+                (best, n)
             })
         })
         .map_err(|e| format!("spawn: {e}"))?;
@@ -256,10 +270,13 @@ fn judge(outs: &[ChildOutcome], what: &str, witness: impl Fn(usize) -> Value, st
             ChildOutcome::Ok { param, len, secs, errors } => {
                 st.outcome(if *errors > 0 { "ok-with-errors" } else { "ok-clean" });
                 if *secs > 20.0 {
-                    st.violation(Violation { signature: "too-slow".into(), witness: witness(*param), detail: format!("{what}: {len} bytes took {secs:.1}s") });
+                    st.violation(Violation { signature: "too-slow".into(), witness: witness(*param), detail: format!("{what}: {len} bytes took {secs:.1}s of CPU time") });
                 }
                 if let Some((plen, psecs)) = prev {
-                    if plen >= 64 * 1024 && *len >= 2 * plen - 64 && *len <= 2 * plen + 64 && psecs > 0.05 && *secs / psecs > 8.0 {
+                    // doubling the input: linear ≈ 2, quadratic ≈ 4; only a factor above 8 is judged
+                    // (DESIGN §3.6: timing is an oracle only with wide margins — memory effects and
+                    // machine load move the ratio well above 2 for linear code)
+                    if plen >= 64 * 1024 && *len >= 2 * plen - 64 && *len <= 2 * plen + 64 && psecs > 0.02 && *secs > 0.25 && *secs / psecs > 8.0 {
                         st.violation(Violation {
                             signature: "superlinear".into(),
                             witness: witness(*param),
@@ -409,7 +426,7 @@ pub fn run(args: &Args) -> ! {
     all.merge(st);
 
     rep.rule = format!(
-        "(a) every word of Σ1^≤{k1} and Σ2^≤{k2} × {N_CFG} configs under catch_unwind; (b) {} nesting families{} × depths 2^0..2^{max_pow}, each parsed+walked+dropped on a {STACK}-byte stack in a subprocess (abort/SIGSEGV observed); (c) each of {} Σ2 fragments repeated to sizes {:?} (time rule: <20 s, t(2n)/t(n)<8 for n≥64KiB). distinct by construction; non-trivial = more than one fragment / any nesting case",
+        "(a) every word of Σ1^≤{k1} and Σ2^≤{k2} × {N_CFG} configs under catch_unwind; (b) {} nesting families{} × depths 2^0..2^{max_pow}, each parsed+walked+dropped on a {STACK}-byte stack in a subprocess (abort/SIGSEGV observed); (c) each of {} Σ2 fragments repeated to sizes {:?} (time rule on thread CPU time, best of 3: <20 s, and t(2n)/t(n) ≤ 8 for n≥64KiB when t(2n) > 0.25 s). distinct by construction; non-trivial = more than one fragment / any nesting case",
         fs.len(), if pairs { " and alternating pairs" } else { "" }, SIGMA2.len(), sizes
     );
     rep.exhaustive = done_b && done_c && done1 == Some(k1) && done2 == Some(k2);
